@@ -165,6 +165,8 @@ impl Engine for CmpEngine {
                 };
                 vec![mk(255), mk(254)]
             },
+            // a module-prefix import through `super.` (repaired: it never resolved)
+            vec!["cmp compile mod([],[fn($6d61696e,[],[setglobal($67,call($6c69622e696e6e65722e72,[]))])],[sub($6c6962,mod([],[],[sub($696e6e6572,mod([$73757065722e736962],[fn($72,[],[return(call($7369622e71,[]))])],[])),sub($736962,mod([],[fn($71,[],[return(int(#7))])],[]))]))])".to_string()],
             // known finding K3: a reference to the entry function compiles, but `main` has no label
             vec!["cmp wf mod([],[fn($6d61696e,[],[setglobal($67,function($6d61696e))])],[])".to_string()],
             vec!["cmp wf mod([],[fn($6d61696e,[],[setglobal($67,int(#1))]),fn($66,[],[return(call($6d61696e,[]))])],[])".to_string()],
